@@ -244,6 +244,8 @@ inline void limitsDeserialize(Ctx& C) {
       bool truncated = delta == 3;
       size_t n = truncated ? fit + 1 : fit + size_t(long(delta));
       size_t present = truncated ? 3 : n;
+      if (fmt == 3 && n > 3000) continue;  // the JSON parser looks every key up (repeated keys): quadratic in the member count
+      if ((fmt == 1 || fmt == 4) && n > 65535) continue;  // a 16-bit header cannot announce that many children
       LimitCase L(C, std::string("limits:cfg=") + cfgName() + "|script=deserialize-" + fmts[fmt] + (truncated ? "|announced=fit+1,present=3" : "|children=fit" + std::string(delta < 0 ? "-1" : delta == 0 ? "" : "+" + std::to_string(delta))));
       C.begin(L.key);
       std::string in;
@@ -301,11 +303,105 @@ inline void limitsDeserialize(Ctx& C) {
   }
 }
 
+// documents larger than the inline pool table that are shrunk, moved, swapped, copied - and then GROW again up to the limit
+inline void limitsGrowAfter(Ctx& C) {
+  const size_t LIMIT = (size_t(1) << (8 * ARDUINOJSON_SLOT_ID_SIZE)) - 1;
+  const size_t CAP = ARDUINOJSON_POOL_CAPACITY, INIT = ARDUINOJSON_INITIAL_POOL_COUNT;
+  static const char* ops[] = {"shrinkToFit", "deserialize-then-add", "move-construct", "move-assign", "swap-with-empty", "swap-with-small", "copy-assign", "copy-construct"};
+  std::vector<size_t> fills = {CAP * INIT + 1, LIMIT / 2, LIMIT - 1};
+  for (size_t fill : fills) {
+    if (fill + 2 > LIMIT) continue;
+    for (int op = 0; op < 8; op++) {
+      if (!C.take()) continue;
+      std::string key = std::string("limits:cfg=") + cfgName() + "|script=grow-after-" + ops[op] + "|fill=" + std::to_string(fill);
+      C.begin(key);
+      LedgerAllocator A("A"), B("B");
+      std::string problems;
+      {
+        JsonDocument d1(&A), d2(&B);
+        JsonDocument* big = &d1;
+        auto fillTo = [&](JsonDocument& d, size_t from, size_t to) {
+          for (size_t i = from; i < to; i++)
+            if (!d.add(int(i % 1000))) return i;
+          return to;
+        };
+        auto check = [&](JsonDocument& d, size_t n, const char* where) {
+          if (d.size() != n) { problems += std::string(where) + ": size() is " + std::to_string(d.size()) + ", expected " + std::to_string(n) + "; "; return; }
+          size_t i = 0;
+          for (JsonVariantConst e : d.as<JsonArrayConst>()) {
+            if (e.as<size_t>() != i % 1000) { problems += std::string(where) + ": element " + std::to_string(i) + " is wrong; "; break; }
+            i++;
+          }
+          std::string e = inspectErrors(d);
+          if (!e.empty()) problems += std::string(where) + ": " + e + "; ";
+        };
+        size_t n = 0;
+        if (op == 1) {
+          std::string text = "[";
+          for (size_t i = 0; i < fill; i++) text += (i ? "," : "") + std::to_string(i % 1000);
+          text += "]";
+          if (deserializeJson(d1, text) != DeserializationError::Ok) problems += "deserializeJson of a document below the limit failed; ";
+          n = fill;
+        } else {
+          n = fillTo(d1, 0, fill);
+          if (n != fill) problems += "filling below the limit failed at " + std::to_string(n) + "; ";
+        }
+        d2.add(0);  // the small document
+        switch (op) {
+          case 0: d1.shrinkToFit(); break;
+          case 1: break;
+          case 2: { JsonDocument moved(std::move(d1)); d2 = std::move(moved); big = &d2; break; }
+          case 3: d2 = std::move(d1); big = &d2; break;
+          case 4: { JsonDocument empty(&B); swap(d1, empty); d2 = std::move(empty); big = &d2; break; }
+          case 5: swap(d1, d2); big = &d2; break;
+          case 6: d2 = d1; big = &d2; break;
+          default: { JsonDocument copy(d1); d2 = std::move(copy); big = &d2; break; }
+        }
+        check(*big, n, "after the operation");
+        // grow to the limit, one slot at a time: every insertion below the limit succeeds, then a clean refusal
+        size_t reached = fillTo(*big, n, LIMIT);
+        if (reached != LIMIT) {
+          std::string what = "after " + std::string(ops[op]) + " insertion " + std::to_string(reached) + " failed although only " + std::to_string(reached) + " of " +
+                             std::to_string(LIMIT) + " slots are in use; ";
+          // the ids between the usage and the capacity of a shrunk pool are never handed out again (finding N4): at most CAP-1 ids
+          if ((op == 0 || op == 1) && reached + CAP > LIMIT && reached < LIMIT && big->overflowed())
+            C.failKey(key + "|cause=ids-lost-by-shrink", "grow-after", what);
+          else
+            problems += what;
+        }
+        check(*big, reached, "at the limit");
+        if (big->add(1)) problems += "insertion beyond the limit succeeded; ";
+        else if (!big->overflowed()) problems += "refused insertion did not set overflowed(); ";
+        // the other document (moved-from / swapped / source of the copy) is still usable
+        JsonDocument& other = big == &d1 ? d2 : d1;
+        size_t on = other.size();
+        if (op == 6 || op == 7) check(other, n, "source of the copy");
+        else {
+          other.clear();
+          on = 0;
+        }
+        size_t oreach = fillTo(other, on, on + 3 * CAP);
+        if (op != 6 && op != 7 && oreach != on + 3 * CAP) problems += "the other document cannot grow after the operation; ";
+        problems += A.takeErrors() + B.takeErrors();
+      }
+      if (!A.live.empty() || !B.live.empty()) problems += "blocks live after destruction; ";
+      problems += A.takeErrors() + B.takeErrors();
+      if (!problems.empty()) C.fail("grow-after", problems);
+      C.nontrivial();
+      C.outcome(std::string("grow-after-") + ops[op]);
+      C.end();
+    }
+  }
+}
+
 inline void runLimits(Ctx& C) {
 #if ARDUINOJSON_SLOT_ID_SIZE <= 2
+  limitsGrowAfter(C);
   if (C.take()) limitsDeserialize(C);
   for (int kind = 0; kind < 4; kind++) {
     if (!C.take()) continue;
+    // object members are inserted through a key look-up: quadratic in the member count (2-byte ids: thorough tier only)
+    if (kind == 3 && ARDUINOJSON_SLOT_ID_SIZE > 1 && !C.thorough()) continue;
     limitsArray(C, kind);
   }
 #else
@@ -315,7 +411,7 @@ inline void runLimits(Ctx& C) {
   C.metrics["states"] += double(C.evaluations);
   C.metrics["transitions"] += double(C.evaluations);
   C.bound(std::string("fill/remove/refill/clear scripts for 4 value kinds at slot limit ") + std::to_string((size_t(1) << (8 * ARDUINOJSON_SLOT_ID_SIZE)) - 1) +
-          "; arrays / objects of limit-1 .. limit+2 slots and over-announcing truncated headers through deserializeJson and deserializeMsgPack (16- and 32-bit headers); strings of length max-1, max, max+1 through set, key, deserializeJson, deserializeMsgPack, Printable; geometry " + cfgName() + ",len" + std::to_string(ARDUINOJSON_STRING_LENGTH_SIZE));
+          "; documents of CAP*INIT+1, limit/2, limit-1 slots that are shrunk / parsed / moved / swapped / copied and then grown one slot at a time to the limit; arrays / objects of limit-1 .. limit+2 slots and over-announcing truncated headers through deserializeJson and deserializeMsgPack (16- and 32-bit headers); strings of length max-1, max, max+1 through set, key, deserializeJson, deserializeMsgPack, Printable; geometry " + cfgName() + ",len" + std::to_string(ARDUINOJSON_STRING_LENGTH_SIZE));
 }
 
 }  // namespace hx
